@@ -217,7 +217,12 @@ def _run_chunk(cmd, lines, timeout, env=None):
     """Run one process over a chunk; on crash/timeout, attribute to the first unanswered case and resume."""
     out = []
     start = 0
+    failures = 0
     while start < len(lines):
+        if failures >= 3:
+            # repeated crashes/hangs: do not burn the time budget, the cases already attributed are reported
+            out.extend(["skipped after repeated crashes"] * (len(lines) - start))
+            break
         data = "\n".join(lines[start:]) + "\n"
         try:
             p = subprocess.run(cmd, input=data, stdout=subprocess.PIPE, stderr=subprocess.PIPE, timeout=timeout,
@@ -244,6 +249,7 @@ def _run_chunk(cmd, lines, timeout, env=None):
             break
         out.extend(got)
         out.append("crash " + status)
+        failures += 1
         start += len(got) + 1
     return out
 
